@@ -12,11 +12,8 @@ PRELUDE = """RUNSPEC
 TITLE
  GENERATED MODEL
 DIMENS
- 4 4 3 /
-OIL
-WATER
-GAS
-{unit}
+ {nx} {ny} {nz} /
+{phases}{unit}
 START
  1 'JAN' 2020 /
 WELLDIMS
@@ -39,22 +36,22 @@ NETWORK
  6 5 /
 {runspec_extra}GRID
 DX
- 48*100 /
+ {n}*100 /
 DY
- 48*100 /
+ {n}*100 /
 DZ
- 48*10 /
+ {n}*10 /
 TOPS
- 16*2000 /
+ {nxy}*2000 /
 PORO
- 48*0.2 /
+ {n}*0.2 /
 PERMX
- 48*100 /
+ {n}*100 /
 PERMY
- 48*80 /
+ {n}*80 /
 PERMZ
- 48*10 /
-PROPS
+ {n}*10 /
+{grid_extra}PROPS
 SWOF
  0.2 0.0 1.0 0.0
  0.5 0.2 0.3 0.0
@@ -79,22 +76,30 @@ ROCK
  200 4.0e-5 /
 REGIONS
 FIPNUM
- 24*1 24*2 /
+ {h1}*1 {h2}*2 /
 SOLUTION
-EQUIL
- 2000 200 2100 0 1900 0 /
-SUMMARY
+{solution}SUMMARY
 FOPR
 WOPR
 /
 SCHEDULE
-"""
+{schedule_head}"""
+
+EQUIL_TEXT = "EQUIL\n 2000 200 2100 0 1900 0 /\n"
 
 MONTHS = ["JAN", "FEB", "MAR", "APR", "MAY", "JUN", "JUL", "AUG", "SEP", "OCT", "NOV", "DEC"]
 
 
-def prelude(unit="METRIC", runspec_extra=""):
-    return PRELUDE.format(unit=unit, runspec_extra=runspec_extra)
+def prelude(unit="METRIC", runspec_extra="", dims=None, phases=("OIL", "WATER", "GAS"), grid_extra="", solution=None,
+            schedule_head=""):
+    """the fixed RUNSPEC..SUMMARY part.  Defaults give the 4x4x3 three-phase model used by C03/C04/C11; C05 varies the
+    grid size, the phases, adds ACTNUM (grid_extra), replaces EQUIL by RESTART (solution) and puts SKIPREST / RPTRST
+    at the top of SCHEDULE (schedule_head)."""
+    nx, ny, nz = dims or (NX, NY, NZ)
+    n = nx * ny * nz
+    return PRELUDE.format(unit=unit, runspec_extra=runspec_extra, nx=nx, ny=ny, nz=nz, n=n, nxy=nx * ny,
+                          phases="".join(p + "\n" for p in phases), grid_extra=grid_extra, h1=n // 2, h2=n - n // 2,
+                          solution=EQUIL_TEXT if solution is None else solution, schedule_head=schedule_head)
 
 
 class Model:
